@@ -443,6 +443,11 @@ impl<'a, Input: InputIndexer> MatchAttempter<'a, Input> {
         debug_assert!(self.states.is_empty(), "Should be no states");
         self.states.push(init_state.clone());
         while !self.states.is_empty() {
+            #[cfg(regress_verif)]
+            if !crate::verif::fuel::tick(self.states.len()) {
+                self.states.clear();
+                return false;
+            }
             let s = self.states.last_mut().unwrap();
             match try_match_state(self.re, &input, s, dir) {
                 StateMatch::Fail => {
